@@ -122,6 +122,20 @@ theorem pc_dotted (sub : List Char → Option (Re × List Char)) (t : List Char)
         simpa [replaceDots, hc, Nat.add_assoc] using this
       · exact absurd hp hc
 
+theorem dropLazy_noRep {rest : List Char} (h : NoRep rest) : dropLazy rest = rest := by
+  rcases h with h | ⟨c, r, h, _, _, h3, _⟩
+  · subst h; rfl
+  · subst h
+    unfold dropLazy
+    split
+    · rename_i heq; cases heq; exact absurd rfl h3
+    · rfl
+
+theorem postfix_plus (a : Re) {rest : List Char} (hr : NoRep rest) :
+    parsePostfix a ('+' :: rest) = some (.plus a, rest) := by
+  have hp1 : peekRepeat ('+' :: rest) = .op .plus rest := rfl
+  simp [parsePostfix, hp1, dropLazy_noRep hr, peek_noRep hr, applyRep]
+
 /-- `/[^/]+` -/
 theorem pc_param (sub : List Char → Option (Re × List Char)) {rest : List Char} {f : Nat}
     {rs : List Re} {r : List Char} (hr : NoRep rest) (h : parseCat sub f rest = some (rs, r)) :
@@ -129,14 +143,8 @@ theorem pc_param (sub : List Char → Option (Re × List Char)) {rest : List Cha
   have hcls : parseAtom sub ('[' :: '^' :: '/' :: ']' :: '+' :: rest) = some (.cls true [('/', '/')], '+' :: rest) := by
     simp [parseAtom, parseClass, classItems, classChar]
   have hpost : parsePostfix (.cls true [('/', '/')]) ('+' :: rest) = some (paramRe, rest) := by
-    have hq : (match rest with | '?' :: r => r | _ => rest) = rest := by
-      rcases hr with hr | ⟨c, r', hr, _, _, h3, _⟩
-      · subst hr; rfl
-      · subst hr
-        split
-        · rename_i heq; cases heq; exact absurd rfl h3
-        · rfl
-    simp [parsePostfix, peekRepeat, hq, peek_noRep hr, applyRep, paramRe]
+    have := postfix_plus (.cls true [('/', '/')]) hr
+    simpa [paramRe] using this
   have hp : peekRepeat ('[' :: '^' :: '/' :: ']' :: '+' :: rest) = .notRep := peek_noRep (noRep_cons (by decide))
   have h1 : parseCat sub (f + 1) ('[' :: '^' :: '/' :: ']' :: '+' :: rest) = some (paramRe :: rs, r) := by
     unfold parseCat
@@ -338,14 +346,21 @@ theorem need_le : ∀ (ps : List Part) (d : Bool),
   | cons p ps ih =>
     intro d
     have ih' := ih (p.seg == .wild)
-    have hfn : finNeed d (p :: ps) = finNeed (p.seg == .wild) ps := by simp [finNeed, endsWildT]
-    have hft : finText d (p :: ps) = finText (p.seg == .wild) ps := by simp [finText, endsWildT]
+    have hfn : finNeed d (p :: ps) = finNeed (p.seg == .wild) ps := rfl
+    have hft : finText d (p :: ps) = finText (p.seg == .wild) ps := rfl
     rw [hfn, hft]
     simp only [List.length_append] at ih' ⊢
-    cases hh : p.host <;> cases hs : p.seg
-    all_goals simp [need, fmtTail, hh, hs, paramRegex, wildcardRegex]
-    all_goals (try have := length_replaceDots_ge ‹String›.toList)
-    all_goals omega
+    cases hs : p.seg with
+    | lit t =>
+      have hl := length_replaceDots_ge t.toList
+      rw [hs] at ih'
+      cases hh : p.host <;> simp [need, fmtTail, hh, hs, segChars, lit_beq_wild] at ih' ⊢ <;> omega
+    | par nm =>
+      rw [hs] at ih'
+      cases hh : p.host <;> simp [need, fmtTail, hh, hs, segChars, paramRegex, par_beq_wild] at ih' ⊢ <;> omega
+    | wild =>
+      rw [hs] at ih'
+      cases hh : p.host <;> simp [need, fmtTail, hh, hs, segChars, wildcardRegex] at ih' ⊢ <;> omega
 
 /-- Part B: the parser reads the formatted text of a safe pattern as the intended AST. -/
 theorem parse_format_safe (m : List Char) (P : List Part) (hs : safe P = true)
@@ -390,7 +405,9 @@ theorem parse_format_safe (m : List Char) (P : List Part) (hs : safe P = true)
     rw [hn]
     have hW : parseAltN (n + 1 + 1) (w ++ tail)
         = some (catList (w.map Re.char ++ (tailPieces ps ++ fin false ps)), []) := by
-      simp only [parseAltN]
+      have e : parseAltN (n + 1 + 1) (w ++ tail)
+          = parseAltW (parseAltN (n + 1)) ((w ++ tail).length + 1) (w ++ tail) := rfl
+      rw [e]
       unfold parseAltW
       simp only [hcat]
     simp [hW]
